@@ -3,7 +3,7 @@ from pgsa import extract, core, rules8
 p,_,_ = extract.extract('all')
 F = core.Facts(p)
 v = "-v" in sys.argv
-names = [a for a in sys.argv[1:] if a != "-v"] or ["index_twice_kinds","matrix_checked_position","tarjan_component_count","matching_is_empty","fixpoint_store_flagged","page_rank_whole_rows","index_arith","dsatur_update_then_queue","join_flag_names_edge","reader_never_panics","who_updates_edges","csr_count_reset","csr_edge_id_steps","kosaraju_emits_walker_output","ordermap_both_directions","residual_arithmetic_is_directional","index_vs_count","position_vs_index"]
+names = [a for a in sys.argv[1:] if a != "-v"] or ["index_twice_kinds","matrix_checked_position","tarjan_component_count","matching_is_empty","fixpoint_store_flagged","page_rank_whole_rows","index_arith","dsatur_update_then_queue","join_flag_names_edge","reader_never_panics","who_updates_edges","csr_count_reset","csr_edge_id_steps","kosaraju_emits_walker_output","ordermap_both_directions","residual_arithmetic_is_directional","index_vs_count","position_vs_index","csr_sorted_size","adjacency_matrix_only_sets","tarjan_initial_state","dijkstra_exits","acyclic_remove_presence","matching_never_unvisits","dot_connector_source","dsatur_key_shape"]
 for n in names:
     r = getattr(rules8,n)(F)
     print(n, "instances", len(r.instances), "violations", len(r.violations), "floor", r.floor)
